@@ -56,6 +56,7 @@ import PercevalModel.Lemmas.C12Bound
 import PercevalModel.Lemmas.C12Tri
 import PercevalModel.Lemmas.C12NearDiag
 import PercevalModel.Lemmas.C12Glue
+import PercevalModel.Lemmas.C12Exact
 import PercevalModel.Num.GQ
 import Mathlib.LinearAlgebra.Matrix.Notation
 import Mathlib.LinearAlgebra.Matrix.Block
@@ -1014,5 +1015,184 @@ example : solveCell (fun _ _ => [0]) false (1 : ℤ) (fun x : List ℤ => x.sum)
   have h2 : solve (fun _ _ => [0]) false (1 : ℤ) (fun x : List ℤ => x.sum) [5] [none] = some [0] := by
     rw [solve]; simp [firstSome]
   simp [solveCell, List.findSome?, h1, h2]
+
+end PM.C12
+
+
+/-! ### the existence clause for a WHOLE RUN (`Model/C12Exact.lean`, `Lemmas/C12Exact.lean`)
+
+`mzi_exists_nulling_parameters` / `bsPs_exists_nulling_parameters` are about one cell.  Here they are composed over
+the double loop: `decomposeExact` is `decompose_triangle` with the solver given as a FUNCTION of the two entries the
+cell's equation is built from (`none` = `res is None`).  A solver that answers every cell makes the run return a
+component list for EVERY matrix, every threshold predicate and every flag combination (`decompose_triangle` has no
+other `return None`); such a run is a run of the list-oracle model on the list of the solver's answers, so all the
+theorems above apply to it; with the closed forms plugged in, every solved cell is nulled EXACTLY, and for a unitary
+input the returned circuit (with the phase layer) is within the perturbation bound of `U` where only the entries the
+threshold test declared negligible contribute — it IS `U` when the threshold test accepts exact zeros only (the
+universality of the triangular mesh of the two blocks, as the code builds it). -/
+
+namespace PM.C12
+
+/-- a solver that answers every cell makes `decompose_triangle` return (never `None`), for every matrix (unitary or
+not), every threshold predicate and every flag combination -/
+theorem exact_run_returns_circuit [CommRing R] (cfg : Cfg R) (solver : R → R → Option (Sol R))
+    (hs : ∀ a b, (solver a b).isSome = true) {m : ℕ} (U : Matrix (Fin m) (Fin m) R) :
+    ∃ st, decomposeExact cfg solver U = some st :=
+  Option.isSome_iff_exists.1 (runF_total cfg solver hs (cells m) _)
+
+/-- a run with the solver plugged in is a run of `decomposeTriangle` on the list of the solver's answers (same final
+state), and the value every solved cell overwrites is the cell's equation at the solver's answer for the cell's own
+entries `(a, b)` -/
+theorem exact_run_is_a_run [CommRing R] (cfg : Cfg R) (solver : R → R → Option (Sol R)) {m : ℕ}
+    (U : Matrix (Fin m) (Fin m) R) (st : St R m) (h : decomposeExact cfg solver U = some st) :
+    ∃ sols : List (Sol R),
+      (∀ s ∈ sols, ∃ a b, solver a b = some s) ∧
+      decomposeTriangle cfg U sols = some st ∧
+      ∀ r ∈ trace cfg (initSt U sols) (cells m), r.solved = true →
+        ∃ s, solver r.a r.b = some s ∧ r.z = nullEq s.2 r.a r.b :=
+  decomposeExact_spec cfg solver U st h
+
+/-- `universal_block_run_succeeds`: for `catalog['mzi phase last']` and for `BS(theta)//PS(phi)`, with the closed-form
+parameters as the solver, `decompose_triangle` returns for EVERY square complex matrix, every threshold and every flag
+combination; the components are instances of the block at real parameter values and every solved cell is nulled
+exactly -/
+theorem universal_block_run_succeeds (cfg : Cfg ℂ) {m : ℕ} (U : Matrix (Fin m) (Fin m) ℂ) :
+    (∃ sols st, (∀ s ∈ sols, ∃ φa φb : ℝ, s = (mziC φa φb, mziInvC φa φb)) ∧
+        decomposeExact cfg mziSolver U = some st ∧ decomposeTriangle cfg U sols = some st ∧
+        ∀ r ∈ trace cfg (initSt U sols) (cells m), r.solved = true → r.z = 0) ∧
+    (∃ sols st, (∀ s ∈ sols, ∃ θ φ : ℝ, s = (bsPsC θ φ, bsPsInvC θ φ)) ∧
+        decomposeExact cfg bsPsSolver U = some st ∧ decomposeTriangle cfg U sols = some st ∧
+        ∀ r ∈ trace cfg (initSt U sols) (cells m), r.solved = true → r.z = 0) := by
+  constructor
+  · obtain ⟨st, hst⟩ := exact_run_returns_circuit cfg mziSolver (fun _ _ => rfl) U
+    obtain ⟨sols, h1, h2, h3⟩ := exact_run_is_a_run cfg mziSolver U st hst
+    refine ⟨sols, st, ?_, hst, h2, ?_⟩
+    · intro s hs
+      obtain ⟨a, b, hab⟩ := h1 s hs
+      simp only [mziSolver, Option.some.injEq] at hab
+      exact ⟨_, _, hab.symm⟩
+    · intro r hr hsv
+      obtain ⟨s, hs, hz⟩ := h3 r hr hsv
+      simp only [mziSolver, Option.some.injEq] at hs
+      subst hs
+      rw [hz]
+      exact mzi_nulls' r.a r.b
+  · obtain ⟨st, hst⟩ := exact_run_returns_circuit cfg bsPsSolver (fun _ _ => rfl) U
+    obtain ⟨sols, h1, h2, h3⟩ := exact_run_is_a_run cfg bsPsSolver U st hst
+    refine ⟨sols, st, ?_, hst, h2, ?_⟩
+    · intro s hs
+      obtain ⟨a, b, hab⟩ := h1 s hs
+      simp only [bsPsSolver, Option.some.injEq] at hab
+      exact ⟨_, _, hab.symm⟩
+    · intro r hr hsv
+      obtain ⟨s, hs, hz⟩ := h3 r hr hsv
+      simp only [bsPsSolver, Option.some.injEq] at hs
+      subst hs
+      rw [hz]
+      exact bsPs_nulls' r.a r.b
+
+/-- `exact_solver_reproduces_unitary`: ANY solver that answers every cell with a unitary block, the two-sided inverse
+the code multiplies with, and an exact root of the cell's equation: for a unitary `U` the run returns, and the circuit
+with the phase layer is within `(√(m−1)+2)·N·ε + m·(N·ε)²` of `U`, `ε` bounding the entries the threshold test calls
+negligible (the solved cells contribute nothing) -/
+theorem exact_solver_reproduces_unitary (cfg : Cfg ℂ) (solver : ℂ → ℂ → Option (Sol ℂ))
+    (hs : ∀ a b, (solver a b).isSome = true)
+    (hinv : ∀ a b s, solver a b = some s → s.1 * s.2 = 1)
+    (hunit : ∀ a b s, solver a b = some s → IsUnitary s.1)
+    (hnull : ∀ a b s, solver a b = some s → nullEq s.2 a b = 0)
+    {m : ℕ} (U : Matrix (Fin m) (Fin m) ℂ) (hU : IsUnitary U)
+    (ε : ℝ) (hε0 : 0 ≤ ε) (hsmall : ∀ x, cfg.small x = true → ‖x‖ ≤ ε)
+    (keep : ℂ → Bool) (hkeep : ∀ z, keep z = false → z = 1) :
+    ∃ st, decomposeExact cfg solver U = some st ∧
+      frob (U - circMat m (addPhases keep (fun i => phase (st.u.toMatrix i i)) ++ st.comps)) ≤
+        (Real.sqrt ((m : ℝ) - 1) + 2) * (((cells m).length : ℝ) * ε) +
+          (m : ℝ) * (((cells m).length : ℝ) * ε) ^ 2 := by
+  obtain ⟨st, hst⟩ := exact_run_returns_circuit cfg solver hs U
+  obtain ⟨sols, h1, h2, h3⟩ := exact_run_is_a_run cfg solver U st hst
+  refine ⟨st, hst, ?_⟩
+  refine decomposition_error_bound_precision cfg U hU sols ?_ ?_ st h2 ε hε0 ?_ keep hkeep
+  · intro s hs'
+    obtain ⟨a, b, hab⟩ := h1 s hs'
+    exact hinv a b s hab
+  · intro s hs'
+    obtain ⟨a, b, hab⟩ := h1 s hs'
+    exact hunit a b s hab
+  · intro r hr
+    cases hsv : r.solved with
+    | true =>
+      obtain ⟨s, hs', hz⟩ := h3 r hr hsv
+      rw [hz, hnull _ _ s hs', norm_zero]
+      exact hε0
+    | false => exact hsmall _ ((overwritten_values cfg U sols r hr).1 hsv)
+
+/-- `universal_block_reproduces_every_unitary`: the two blocks with their closed-form solvers satisfy the hypotheses
+of `exact_solver_reproduces_unitary` — for every unitary matrix of every size the exact algorithm returns a mesh of
+MZIs (resp. `BS//PS`) whose matrix, with the phase layer, is within the bound of `U` -/
+theorem universal_block_reproduces_every_unitary (cfg : Cfg ℂ) {m : ℕ} (U : Matrix (Fin m) (Fin m) ℂ)
+    (hU : IsUnitary U) (ε : ℝ) (hε0 : 0 ≤ ε) (hsmall : ∀ x, cfg.small x = true → ‖x‖ ≤ ε)
+    (keep : ℂ → Bool) (hkeep : ∀ z, keep z = false → z = 1) :
+    (∃ st, decomposeExact cfg mziSolver U = some st ∧
+      frob (U - circMat m (addPhases keep (fun i => phase (st.u.toMatrix i i)) ++ st.comps)) ≤
+        (Real.sqrt ((m : ℝ) - 1) + 2) * (((cells m).length : ℝ) * ε) +
+          (m : ℝ) * (((cells m).length : ℝ) * ε) ^ 2) ∧
+    (∃ st, decomposeExact cfg bsPsSolver U = some st ∧
+      frob (U - circMat m (addPhases keep (fun i => phase (st.u.toMatrix i i)) ++ st.comps)) ≤
+        (Real.sqrt ((m : ℝ) - 1) + 2) * (((cells m).length : ℝ) * ε) +
+          (m : ℝ) * (((cells m).length : ℝ) * ε) ^ 2) := by
+  constructor
+  · refine exact_solver_reproduces_unitary cfg mziSolver (fun _ _ => rfl) ?_ ?_ ?_ U hU ε hε0 hsmall keep hkeep
+    · intro a b s h
+      simp only [mziSolver, Option.some.injEq] at h
+      subst h
+      exact mziC_mul_mziInvC _ _
+    · intro a b s h
+      simp only [mziSolver, Option.some.injEq] at h
+      subst h
+      exact mziC_isUnitary _ _
+    · intro a b s h
+      simp only [mziSolver, Option.some.injEq] at h
+      subst h
+      exact mzi_nulls' a b
+  · refine exact_solver_reproduces_unitary cfg bsPsSolver (fun _ _ => rfl) ?_ ?_ ?_ U hU ε hε0 hsmall keep hkeep
+    · intro a b s h
+      simp only [bsPsSolver, Option.some.injEq] at h
+      subst h
+      exact bsPsC_mul_bsPsInvC _ _
+    · intro a b s h
+      simp only [bsPsSolver, Option.some.injEq] at h
+      subst h
+      exact bsPsC_isUnitary _ _
+    · intro a b s h
+      simp only [bsPsSolver, Option.some.injEq] at h
+      subst h
+      exact bsPs_nulls' a b
+
+/-- `universal_block_exact_decomposition` (the universality of the triangular mesh, for the code's own elimination
+order, branches and phase layer): when the threshold test accepts exact zeros only, for EVERY unitary `U` of every size
+the exact algorithm returns a circuit of MZIs (resp. `BS//PS`) and phase shifters whose matrix IS `U` -/
+theorem universal_block_exact_decomposition (cfg : Cfg ℂ) (hzero : ∀ x, cfg.small x = true → x = 0) {m : ℕ}
+    (U : Matrix (Fin m) (Fin m) ℂ) (hU : IsUnitary U) (keep : ℂ → Bool) (hkeep : ∀ z, keep z = false → z = 1) :
+    (∃ st, decomposeExact cfg mziSolver U = some st ∧
+      circMat m (addPhases keep (fun i => phase (st.u.toMatrix i i)) ++ st.comps) = U) ∧
+    (∃ st, decomposeExact cfg bsPsSolver U = some st ∧
+      circMat m (addPhases keep (fun i => phase (st.u.toMatrix i i)) ++ st.comps) = U) := by
+  have h := universal_block_reproduces_every_unitary cfg U hU 0 le_rfl
+    (fun x hx => by rw [hzero x hx, norm_zero]) keep hkeep
+  have fin : ∀ C : Matrix (Fin m) (Fin m) ℂ,
+      frob (U - C) ≤ (Real.sqrt ((m : ℝ) - 1) + 2) * (((cells m).length : ℝ) * 0) +
+          (m : ℝ) * (((cells m).length : ℝ) * 0) ^ 2 → C = U := by
+    intro C hC
+    have h0 : frob (U - C) = 0 := le_antisymm (by simpa using hC) (frob_nonneg _)
+    exact (sub_eq_zero.1 (frob_eq_zero h0)).symm
+  obtain ⟨⟨st1, h1, b1⟩, ⟨st2, h2, b2⟩⟩ := h
+  exact ⟨⟨st1, h1, fin _ b1⟩, ⟨st2, h2, fin _ b2⟩⟩
+
+/-- non-vacuity: a configuration whose threshold test accepts exact zeros only (`precision = 0`), with every flag on -/
+example : ∃ cfg : Cfg ℂ, ∀ x, cfg.small x = true → x = 0 := by
+  classical
+  exact ⟨⟨fun x => decide (x = 0), true, true⟩, fun x hx => by simpa using hx⟩
+
+/-- non-vacuity: the closed-form solvers answer every cell, the all-zero one included -/
+example : (mziSolver 0 0).isSome = true ∧ (bsPsSolver 0 0).isSome = true := ⟨rfl, rfl⟩
 
 end PM.C12
